@@ -35,6 +35,9 @@ KF_C19_CamelKeyLosesWordBoundary(py) ==
   \/ \E k \in 2..Len(ws) : IsDig(ws[k][1])
   \/ \E k \in 2..(Len(ws) - 1) : Len(ws[k]) = 1 /\ IsAlpha(ws[k][1]) /\ IsAlpha(ws[k + 1][1])
                                   /\ (Len(ws[k + 1]) = 1 \/ ~IsLow(ws[k + 1][2]))
+\* A proto field whose Python name is the name of a public method / attribute of betterproto.Message (to_dict, parse, load ...)
+\* replaces that method on the generated class, so the class cannot be converted or parsed.  Input: the Python field name.
+KF_C19_FieldShadowsMessageMethod(py, attrs) == \E k \in 1..Len(attrs) : attrs[k] = py
 \* pascal_case is not idempotent on a class name with a run of capitals (acronyms, adjacent one-letter words):
 \* a_b -> AB -> Ab.  Input: the class name; a run of >= 2 capitals not followed by a lower-case letter, or of >= 3 capitals.
 RECURSIVE CapRunEnd(_, _)
